@@ -383,10 +383,8 @@ def _pair_case():
   paths = st.lists(
       st.lists(st.sampled_from(['a', 'b', 'c', 'k']), min_size=1, max_size=3),
       min_size=1, max_size=7, unique_by=tuple)
-  def prefix_free(ps):
-    ps = [tuple(p) for p in ps]
-    return not any(p != q and q[:len(p)] == p for p in ps for q in ps)
-  paths = paths.filter(prefix_free)
+  # (each operand is made prefix-free when it is built; across operands a
+  # leaf of one may sit where the other has a sub-state)
   return paths.flatmap(lambda ps: st.tuples(
       st.just(ps),
       st.lists(st.sampled_from(['a', 'b', 'ab', 'none']), min_size=len(ps),
@@ -400,8 +398,9 @@ def _pair_case():
 
 
 @clause('state_set_laws', strategy=_pair_case, quick=3000, thorough=150000,
-        rule='pairs of States drawn as sub-sets of one prefix-free path '
-        'universe with different values on shared paths, optionally holding '
+        rule='pairs of States drawn as sub-sets of one path universe (each '
+        'operand prefix-free; for the difference one operand may hold a leaf '
+        'where the other holds a sub-state) with different values on shared paths, optionally holding '
         'empty sub-states at unrelated prefixes: merge_state / | '
         '(later wins), diff / - (paths of a absent from b) vs a flat-dict '
         'model; non-trivial = both states non-empty and overlapping but '
@@ -410,12 +409,20 @@ def state_set_laws(case, ctx):
   paths, member, op, *rest = case
   hollow = rest[0] if rest else []
   fa, fb = {}, {}
+  def related(p, q):
+    return p != q and (q[:len(p)] == p or p[:len(q)] == q)
+  cross = False
   for i, (p, m) in enumerate(zip(paths, member)):
     p = tuple(p)
-    if 'a' in m:
-      fa[p] = nnx.Param(jnp.asarray(i))
-    if 'b' in m:
-      fb[p] = nnx.Param(jnp.asarray(100 + i))
+    if 'a' in m and not any(related(p, q) for q in fa):
+      # union of a leaf and a sub-state at one path is a structural conflict,
+      # not a set operation: only the difference sees such pairs
+      if op in ('diff', 'sub') or not any(related(p, q) for q in fb):
+        fa[p] = nnx.Param(jnp.asarray(i))
+    if 'b' in m and not any(related(p, q) for q in fb):
+      if op in ('diff', 'sub') or not any(related(p, q) for q in fa):
+        fb[p] = nnx.Param(jnp.asarray(100 + i))
+  cross = any(related(p, q) for p in fa for q in fb)
   def nested(flat, empties, other):
     out = {}
     for p, v in flat.items():
@@ -471,6 +478,7 @@ def state_set_laws(case, ctx):
           and dict(statelib.to_flat_state(b)).keys() == fb.keys(),
           f'{op} modified an operand')
   inter = set(fa) & set(fb)
-  ctx.note(labels=[op] + (['empty-substate'] if ea or eb else []),
+  ctx.note(labels=[op] + (['empty-substate'] if ea or eb else []) + (
+      ['leaf-vs-substate'] if cross else []),
            nontrivial=bool(fa) and bool(fb) and bool(inter)
            and set(fa) != set(fb))
